@@ -27,6 +27,8 @@ ASSUMPTIONS = ["the user function is a pure function, continuous on the bracket"
                "theorems are about exact real arithmetic (rnd = id); the driver rounds the new iterate to 2^-200"]
 TRUSTED = ["mpmath evaluation of atan/erf/tanh/pow/exp/log/cos as the sign reference for the transcendental families"]
 
+ITERLIMIT_CLAUSE = ("Find_Root: iteration limit reached before the bracket is shorter than the requested accuracy "
+                    "(bracket width / accuracy > 2^50)")
 MARGIN = Fraction(1, 2 ** 26)
 KNOISE = 64
 U = Fraction(1, 2 ** 53)
@@ -153,10 +155,10 @@ def fn_str(d):
     return "%s %s %s %s" % (k, hx(d["w"]), hx(d["s"]), hx(d["c"]))
 
 
-def rq_root(d, xl, xr, acc):
+def rq_root(d, xl, xr, acc, oracle_only=False):
     # oracle only: transcendental kinds, and plateaus so low that f*f underflows in double (IEEE underflow is
     # not in the exact-rational model)
-    op = "c02.fam" if d["kind"] in TRANSC or (d["kind"] == "plat" and d["c"] < 1e-140) else "c02.root"
+    op = "c02.fam" if oracle_only or d["kind"] in TRANSC or (d["kind"] == "plat" and d["c"] < 1e-140) else "c02.root"
     return "%s %s %s %s %s" % (op, fn_str(d), hx(xl), hx(xr), hx(acc))
 
 
@@ -188,12 +190,12 @@ def generate(tier, seed, ctx):
     ctx["meta"] = {}
     ctx["results"] = {}
 
-    def add(d, xl, xr, acc, fam):
-        rq = rq_root(d, xl, xr, acc)
+    def add(d, xl, xr, acc, fam, oracle_only=False):
+        rq = rq_root(d, xl, xr, acc, oracle_only)
         if rq in ctx["meta"]:
             return
         R.append(rq); ctx["meta"][rq] = dict(fam=fam, order="lr")
-        r2 = rq_root(d, xr, xl, acc)
+        r2 = rq_root(d, xr, xl, acc, oracle_only)
         if r2 not in ctx["meta"]:
             R.append(r2); ctx["meta"][r2] = dict(fam=fam, order="rl", base=rq)
 
@@ -271,6 +273,19 @@ def generate(tier, seed, ctx):
         d = dict(kind="powc", ip=p, c=c)
         if sign_change(d, a, b):
             add(d, a, b, acc_for(r0, b - a), "powc/%s" % ("neg" if p < 0 else "p%d" % min(p // 5, 3)))
+    # 4b. very wide brackets (8..20 decades above the root), width/acc on both sides of 2^50 (oracle only) -------
+    for _ in range(40 * N):
+        p = rng.choice([2, 3, 5, 10, 14])
+        r0 = 10.0 ** rng.uniform(-1, 1)
+        hi_dec = rng.uniform(8, 20)
+        if p * (math.log10(r0) + hi_dec) > 300:
+            continue
+        a = r0 * 10.0 ** -rng.uniform(0.3, 3); b = r0 * 10.0 ** hi_dec
+        c = float(Fraction(r0) ** p)
+        d = dict(kind="powc", ip=p, c=c)
+        acc = rng.choice([1e-14 * r0, r0 * 10.0 ** rng.uniform(-14, 0), (b - a) / 2.0 ** rng.uniform(40, 50), (b - a) / 2.0 ** rng.uniform(50, 70)])
+        if sign_change(d, a, b):
+            add(d, a, b, acc, "wide/%s" % ("beyond-2^50" if (b - a) / acc > 2.0 ** 50 else "within-2^50"), oracle_only=True)
     # 5. saturating piece-wise rational ---------------------------------------------------------------------
     for _ in range(80 * N):
         s = rng.uniform(-3, 3); c = rng.uniform(-0.999, 0.999)
@@ -435,8 +450,11 @@ def oracle(q, I, ctx):
         return out
     W = Fraction(hi) - Fraction(lo)
     delta = Fraction(acc)
+    # width/acc <= 2^50: findRoot_maxiter_bound + ridder_invariant exclude the iteration-limit exit (the bracket at
+    # least halves per iteration), the ordinary accuracy clause applies.  width/acc > 2^50: no method whose only
+    # guarantee is halving can promise the accuracy in 50 iterations; a miss there is reported under its own clause.
+    beyond = delta > 0 and W / delta > 2 ** 50
     if I["maxit"]:
-        delta = max(delta, W / 2 ** 49)
         bump(ctx, "maxiter exits")
     u = max(Fraction(lo), Fraction(r) - delta)
     v = min(Fraction(hi), Fraction(r) + delta)
@@ -456,7 +474,11 @@ def oracle(q, I, ctx):
     if noise <= KNOISE * (float(U) if not isinstance(noise, Fraction) else U):
         bump(ctx, "noise-excused (|f| below its rounding error near the returned point)")
         return out
-    # how far is the nearest sign change?  (diagnostic only)
+    if I["maxit"] and beyond:
+        out.append(fail("prop", ITERLIMIT_CLAUSE,
+                        "r=%r acc=%r width/acc=2^%.1f f(r-acc)=%.3e f(r)=%.3e f(r+acc)=%.3e" % (
+                            r, acc, math.log2(float(W / delta)), float(pts[0][0]), float(pts[1][0]), float(pts[2][0]))))
+        return out
     out.append(fail("prop", "no sign change of the function within the requested accuracy of the returned point",
                     "r=%r acc=%r f(r-acc)=%.3e f(r)=%.3e f(r+acc)=%.3e maxit=%d" % (r, acc, float(pts[0][0]), float(pts[1][0]), float(pts[2][0]), I["maxit"])))
     return out
